@@ -322,9 +322,34 @@ func subBubble(plan *Plan, res *Result) {
 			acts = append(acts, Action{Key: fmt.Sprintf("dev/%s/emit/%d", t, emitted[t]), Fire: func() {
 				n := emitted[t]
 				emitted[t]++
-				r := &gnmi.SubscribeResponse{Response: &gnmi.SubscribeResponse_Update{Update: &gnmi.Notification{Timestamp: int64(1000 + n),
-					Prefix: &gnmi.Path{Target: t},
-					Update: []*gnmi.Update{{Path: Path{{Name: "cont1a"}, {Name: "leaf1a"}}.ToGNMI(""), Val: &gnmi.TypedValue{Value: &gnmi.TypedValue_StringVal{StringVal: fmt.Sprintf("%s-u%d", t, n)}}}}}}}
+				// what the target emits is a stateless function of (plan seed, target, ordinal): value updates, several
+				// updates, delete-only notifications (a node removed on the device), updates with deletes, notifications
+				// without content (heartbeat) and sync responses - every one of them has to reach the subscriber
+				upd := func(leaf string, i int) *gnmi.Update {
+					return &gnmi.Update{Path: Path{{Name: "cont1a"}, {Name: leaf}}.ToGNMI(""), Val: &gnmi.TypedValue{Value: &gnmi.TypedValue_StringVal{StringVal: fmt.Sprintf("%s-u%d.%d", t, n, i)}}}
+				}
+				del := Path{{Name: "cont1a"}, {Name: "list2a", Keys: [][2]string{{"name", fmt.Sprintf("e%d", n)}}}}.ToGNMI("")
+				hx := plan.Seed ^ uint64(n+1)*0x9e3779b97f4a7c15
+				for _, c := range []byte(t) {
+					hx = hx*1099511628211 ^ uint64(c)
+				}
+				nt := &gnmi.Notification{Timestamp: int64(1000 + n), Prefix: &gnmi.Path{Target: t}}
+				r := &gnmi.SubscribeResponse{Response: &gnmi.SubscribeResponse_Update{Update: nt}}
+				switch splitmix(&hx) % 8 {
+				case 0, 1, 2:
+					nt.Update = []*gnmi.Update{upd("leaf1a", 0)}
+				case 3:
+					nt.Update = []*gnmi.Update{upd("leaf1a", 0), upd("leaf1ab", 1)}
+				case 4:
+					nt.Delete = []*gnmi.Path{del}
+				case 5:
+					nt.Update = []*gnmi.Update{upd("leaf1ab", 0)}
+					nt.Delete = []*gnmi.Path{del}
+				case 6:
+					// no content
+				default:
+					r = &gnmi.SubscribeResponse{Response: &gnmi.SubscribeResponse_SyncResponse{SyncResponse: true}}
+				}
 				sentByDev[t] = append(sentByDev[t], r)
 				s0.out <- r
 			}})
@@ -432,14 +457,51 @@ func subBubble(plan *Plan, res *Result) {
 			sent := append([]*gnmi.SubscribeResponse{}, stream.sent...)
 			stream.mu.Unlock()
 			pos := map[string]int{}
-			for _, r := range sent {
-				t := r.GetUpdate().GetPrefix().GetTarget()
-				exp := sentByDev[t]
-				if pos[t] >= len(exp) || !proto.Equal(exp[pos[t]], r) {
-					report("relay", "modified-or-reordered", fmt.Sprintf("subscriber received %v which is not the next update of target %s", r, t))
-					break
+			// what the subscriber received must be an interleaving of the targets' emission sequences, each in its own
+			// order and unmodified. Responses that do not name their target (sync responses) can belong to any target, so
+			// the assignment is searched (sequences are short): the longest consistent prefix is reported on failure.
+			tgs := append([]string{}, sp.Targets...)
+			best := 0
+			var bestPos map[string]int
+			seen := map[string]bool{}
+			var search func(i int, ps []int) bool
+			search = func(i int, ps []int) bool {
+				key := fmt.Sprint(i, ps)
+				if seen[key] {
+					return false
 				}
-				pos[t]++
+				seen[key] = true
+				if i >= best {
+					best = i
+					bestPos = map[string]int{}
+					for j, t := range tgs {
+						bestPos[t] = ps[j]
+					}
+				}
+				if i == len(sent) {
+					return true
+				}
+				r := sent[i]
+				named := r.GetUpdate().GetPrefix().GetTarget()
+				for j, t := range tgs {
+					if named != "" && named != t {
+						continue
+					}
+					if exp := sentByDev[t]; ps[j] < len(exp) && proto.Equal(exp[ps[j]], r) {
+						ps[j]++
+						if search(i+1, ps) {
+							return true
+						}
+						ps[j]--
+					}
+				}
+				return false
+			}
+			if !search(0, make([]int, len(tgs))) {
+				report("relay", "modified-or-reordered", fmt.Sprintf("subscriber received %v (response %d of %d) which is not the next response of any target", sent[best], best+1, len(sent)))
+			}
+			for t, n := range bestPos {
+				pos[t] = n
 			}
 			for _, t := range sp.Targets {
 				if _, named := expectTargets[t]; named && !secondSub && pos[t] != len(sentByDev[t]) {
